@@ -10,81 +10,7 @@ from engine.model.filemodel import FileModel
 from engine.model import data as D
 
 
-class Prog:
-    """a Case built together with its FileModel; checkpoints = points where the file is promised to be up to date"""
-    def __init__(self, name, np=1, fmt=1, hints=None, env=None, path='a.nc', create=True):
-        self.case = Case(name, np); self.np = np; self.m = FileModel(fmt); self.path = path
-        self.cps = []; self.rc_lines = []; self.tag = 0; self.prev = None
-        if env: self.case.op('*', 'env', **env)
-        if create: self.rc_lines.append(self.case.op('*', 'create', f=0, path=path, fmt=fmt, hints=hints))
-
-    def do(self, o, expect=0):
-        rcs, st = self.m.apply(o)
-        assert expect in rcs, (o, rcs, self.case.name)
-        if expect == 0: self.m = st
-        if o['op'] == 'put' and self.np > 1:
-            # rank 0 writes, the others take part with a zero-length request
-            ln = emit_std(self.case, 0, o, None)
-            z = dict(o)
-            if o['count']: z['count'] = [0] * len(o['count']); z['vals'] = []
-            emit_std(self.case, list(range(1, self.np)), z, None)
-        else:
-            ln = emit_std(self.case, '*', o, None)
-        self.rc_lines.append((ln, expect))
-        return ln
-
-    def write_all(self, nrec=2):
-        """write every element of every variable (record vars: nrec records)"""
-        for v in range(len(self.m.vars)):
-            var = self.m.vars[v]; sh = self.m.shape(v)
-            if var['xtype'] == D.NC_CHAR: mem = 'text'
-            else: mem = D.XT_MEM[var['xtype']]
-            if self.m.isrec(v): sh = [nrec] + sh[1:]
-            n = 1
-            for s in sh: n *= s
-            self.tag += 1
-            vals = [((self.tag * 7 + k) % 90) + 1 for k in range(n)]
-            self.do(dict(op='put', v=v, start=[0] * len(sh), count=sh, vals=vals, coll=1, mem=mem, form='vara' if sh else 'var1'))
-
-    def checkpoint(self, label, closed=False):
-        c = self.case
-        sw = inf = None
-        if not closed:
-            sw = c.op('*', 'sweep', f=0); inf = c.op('*', 'inq_file_info', f=0)
-        c.op('*', 'barrier'); sn = c.op(0, 'snap', path=self.path); c.op('*', 'barrier')
-        self.cps.append(dict(label=label, sweep=sw, info=inf, snap=sn, model=self.m.clone()))
-
-    def judge(self, r, env_hints=None, fresh_align=True):
-        out = []
-        if r.status != 'ok': return [((r.status, 'case', first_frame(r.detail)), r.detail[:800])]
-        for item in self.rc_lines:
-            ln, exp = item if isinstance(item, tuple) else (item, 0)
-            for k in r.ranks:
-                o = r.r(k, ln)
-                if o is not None and o.rc != exp: out.append((('rc', o.get('op'), 'expected %d' % exp), 'line %d %s rc=%d expected %d' % (ln, o.get('op'), o.rc, exp)))
-        if out: return out
-        prev = None
-        for cp in self.cps:
-            s = r.r(0, cp['snap'])
-            if s.rc != 0: out.append((('file_missing', cp['label'], ''), 'no file at checkpoint %s' % cp['label'])); continue
-            try:
-                f = cdf.decode(bytes.fromhex(s.get('hex', '')), with_data=True, strict=True)
-            except cdf.CDFError as e:
-                out.append((('not_wellformed', cp['label'], e.kind), 'at %s: independent decoder rejects the file: %s' % (cp['label'], e))); continue
-            for cause, text in fileck.check_logical(cp['model'], f):
-                out.append((('content', cp['label'], cause), 'at %s: %s' % (cp['label'], text)))
-            sw = r.r(0, cp['sweep']).json() if cp['sweep'] else None
-            info = fileck.parse_info(r.r(0, cp['info'])) if cp['info'] else None
-            align = fileck.align_from_info(info) if info else None
-            lo, cur = fileck.check_layout(f, sw, int(s.get('size', 0)), align, prev)
-            for cause, text in lo: out.append((('layout', cp['label'], cause), 'at %s: %s' % (cp['label'], text)))
-            if info is not None and env_hints:
-                for k, v in env_hints.items():
-                    want = (int(v) + 3) // 4 * 4
-                    if info.get(k) is None or int(info.get(k)) != want:
-                        out.append((('hint_not_in_force', cp['label'], k), 'at %s: inq_file_info reports %s=%s, PNETCDF_HINTS asked for %s (effective %d)' % (cp['label'], k, info.get(k), v, want)))
-            prev = cur
-        return out
+from engine.prog import Prog
 
 
 # ------------------------------------------------------------------ schema alphabet
